@@ -228,6 +228,15 @@ def attrs_of(st, out):
         for a in (getattr(st, name, None) or []):
             if isinstance(a, ComponentID) and not any(a is x for x in out):
                 out.append(a)
+    if getattr(st, 'state1', None) is None and not getattr(st, 'states', None):
+        # whatever else a leaf state declares (classes this harness has no special knowledge of)
+        try:
+            declared = list(st.attributes or [])
+        except Exception:
+            declared = []
+        for a in declared:
+            if isinstance(a, ComponentID) and not any(a is x for x in out):
+                out.append(a)
     ref = getattr(st, 'reference_data', None)
     if ref is not None and hasattr(ref, 'pixel_component_ids'):
         out.extend(ref.pixel_component_ids)     # a slice selection is carried to other datasets through pixel links
